@@ -224,6 +224,8 @@ def run(ctx):
                 st["agreed"] += 1
     except Exception as e:
         ctx.notes.append("harness: fallback-binary-only (%s)" % str(e)[:200])
+    from .common import replay_generic_known
+    replay_generic_known(ctx, 'C09')
     ctx.coverage.update(
         evaluations=st["evaluations"], distinct_nontrivial=len(st["distinct"]), traces_validated_against_impl=st["agreed"],
         rule="directories of files with adversarial names (every ASCII punctuation, control characters 1-31 incl. TAB/LF/CR, DEL, multi-byte and astral UTF-8) x 1-6 columns x six formats x five result paths (streamed, ordered, limited, single aggregate row, grouped rows) x 0/1/many rows: each output is decoded by the Coq decoder of its format and must equal the `into list` table (multiset for grouped rows, whose order is a HashMap's), and must equal byte for byte what model.Format emits for that table; plus the real ResultsWriter (harness) on synthetic tables. non-trivial = a table containing a quote, comma, TAB, CR/LF, markup or non-ASCII/control character",
